@@ -9,6 +9,7 @@ import (
 	"github.com/taurusgroup/multi-party-sig/pkg/math/curve"
 	"github.com/taurusgroup/multi-party-sig/pkg/party"
 	"github.com/taurusgroup/multi-party-sig/pkg/zk"
+	"github.com/taurusgroup/multi-party-sig/protocols/cmp/config"
 	zklog "github.com/taurusgroup/multi-party-sig/pkg/zk/log"
 )
 
@@ -70,4 +71,33 @@ func H_C04_CmpAbortHonestAccepted() {
 		vsym.Assert(err == nil && isAbort, "abort2 ends in the protocol's Abort round")
 	}
 	vsym.Reach("cmp-abort-honest-checked")
+}
+
+// H_C04_CmpRoundNumbers: every round a presigning session can enter — including the identification rounds abort1 and
+// abort2 — lies within the number of rounds the session declares, in the offline (no message), full and online variants.
+// The handler sizes its message queues by that number and finalizes a round it has no queue for at once: an
+// identification round beyond it would run without the peers' broadcasts (and crash) instead of naming the cheater.
+func H_C04_CmpRoundNumbers() {
+	group := curve.Secp256k1{}
+	pub := map[party.ID]*config.Public{}
+	for i, id := range c05IDs {
+		pub[id] = &config.Public{ECDSA: group.NewScalar().SetNat(new(saferith.Nat).SetUint64(uint64(5 + i))).ActOnBase(), ElGamal: group.NewBasePoint(),
+			Paillier: zk.ProverPaillierPublic, Pedersen: zk.Pedersen}
+	}
+	c := &config.Config{Group: group, ID: "a", Threshold: 2, ECDSA: group.NewScalar().SetNat(new(saferith.Nat).SetUint64(5)), ElGamal: group.NewScalar().SetNat(new(saferith.Nat).SetUint64(6)),
+		Paillier: zk.ProverPaillierSecret, RID: c05Fill(1), ChainKey: c05Fill(2), Public: pub}
+	var msg []byte
+	if vsym.Choose("variant", 2) == 1 {
+		msg = []byte("0123456789abcdef0123456789abcdef")
+	}
+	s, err := StartPresign(c, c05IDs, msg, nil)([]byte("sid"))
+	vsym.Assert(err == nil, "presign session starts")
+	final := s.FinalRoundNumber()
+	vsym.Assert((&presign7{}).Number() <= final, "round 7 is within the declared rounds")
+	vsym.Assert((&abort1{}).Number() <= final, "identification round abort1 is within the declared rounds")
+	vsym.Assert((&abort2{}).Number() <= final, "identification round abort2 is within the declared rounds")
+	if msg != nil {
+		vsym.Assert((&sign2{}).Number() <= final, "the signing round is within the declared rounds")
+	}
+	vsym.Reach("cmp-round-numbers-checked")
 }
